@@ -731,14 +731,16 @@ def update_where_tree(wtext):
 
 
 def walg_problems(walg):
-    """why C04's `Alg.safe` fails for this pattern (empty = safe), decided on the tree rdflib builds for the same pattern
-    in a QUERY (translateQuery — a code path that does not go through translateUpdate1)"""
+    """why C04's `Alg.safeIn P []` fails for this pattern (empty = safe at the top of an operation, where nothing is pushed in:
+    the hypothesis of `modify_where_spec_partial` / `RV.C04.evalPart_top0`), by `sparqlgen.alg_problems_in` — the Python
+    mirror of the current RV/C04/Safe.lean — on the tree rdflib builds for the same pattern in a QUERY (translateQuery: a
+    code path that does not go through translateUpdate1)"""
     try:
         q = prepareQuery("SELECT * WHERE " + walg_group_text(walg))
         pat = sg.parse_sx(enc_alg(q.algebra.p.p))
     except Exception as e:  # noqa: BLE001
         return {"outside:" + type(e).__name__}
-    return sg.alg_problems(pat)
+    return sg.alg_problems_in(pat, [])
 
 
 def spec_where_alg(walg, dflt, named):
@@ -995,6 +997,7 @@ def spec_request(case):
     # the request may be EXECUTED several times (a prepared Update run again): same operations, the dataset —
     # and with it the supply of fresh blank nodes — threaded through; a failing execution ends the series
     for op in case["ops"] * case.get("runs", 1):
+        info["executed_ops"] = info.get("executed_ops", 0) + 1      # started (the failing one included)
         try:
             names_before = [g for g in G if g != 0]
             G = spec_op(op, G, eff_union, case["api"] == "graph", lambda: next(counter), info)
@@ -1233,8 +1236,9 @@ def run_impl(case):
     # `abstain`: a full-algebra WHERE whose solutions depend on whether a graph without triples is a graph of the dataset
     # (unspecified: a store may or may not record empty graphs) — correspondence only, no verdict on the state
     abstain = bool(info.pop("abstain", 0))
-    for o in case["ops"]:
-        if o["k"] == "modify" and o.get("walg"):
+    executed = info.pop("executed_ops", 0)
+    for k_, o in enumerate(case["ops"]):
+        if o["k"] == "modify" and o.get("walg") and k_ < executed:      # only operations the request got to
             probs = walg_problems(o["walg"])
             if probs:
                 # outside the fragment where rdflib's binding push-down is exact (C04's known findings K1 / K2 / K4, decided
@@ -1247,7 +1251,9 @@ def run_impl(case):
                 info["walg_safe"] = info.get("walg_safe", 0) + 1
     if abstain:
         info["where_algebra_depends_on_empty_graphs"] = 1
-    same = quads == canon_int(want) or (abstain and not failed and err == "ok")
+    # (whatever the request's outcome: a LATER operation may fail — the `outcome:` clause is judged on its own — and the
+    # state the unsafe evaluation left is still outside the oracle's reach)
+    same = quads == canon_int(want) or abstain
     if not same:
         A = {tuple(toterm(x, True) for x in q) for q in set(raw)}
         B = {tuple(toterm(x, True) for x in q) for q in want}
